@@ -323,6 +323,21 @@ class SEnum:
         self.start = start
 
 
+class SZip:
+    """zip(a, b, ...) where at least one operand has symbolic length"""
+    def __init__(self, parts):
+        self.parts = [p.to_slist() if isinstance(p, SRange) else (p if isinstance(p, SList) else as_slist(list(p), "int")) for p in parts]
+
+    def length(self):
+        n = self.parts[0].length()
+        for p in self.parts[1:]:
+            n = ite(p.length() < n, p.length(), n)
+        return SV(z3int(n))
+
+    def at(self, i):
+        return tuple(p.at(i) for p in self.parts)
+
+
 class LoopSpec:
     """inv: callable(V) -> SV bool | dict name->SV bool; V has the locals as attributes,
     V.idx = number of completed iterations (for loops), V.ghost = engine ghost dict"""
@@ -368,7 +383,7 @@ class Runtime:
 
     # ---- R3
     def comp(self, kind, elt, cond, it):
-        if isinstance(it, (SList, SRange, SEnum)):
+        if isinstance(it, (SList, SRange, SEnum, SZip)):
             if kind in ("list", "gen"):
                 return self._sym_listcomp(elt, cond, it)
             raise Undecided(f"{kind} comprehension over a symbolic-length container")
@@ -391,32 +406,37 @@ class Runtime:
             it = it.to_slist()
         enum = isinstance(it, SEnum)
         L = it.base if enum else it
+        if isinstance(L, SRange):
+            L = L.to_slist()
         n = L.length().t
         eng.trust("engine: filter/map summary of a pure single-generator comprehension")
 
         def item(i):
             return (SV(i + it.start), L.at(i)) if enum else L.at(i)
-        eng.guard_frames.append([])
-        try:
-            with eng.spec_mode():
-                probe_i = eng.fresh("cmp_i", z3.IntSort(), bound=True)
-                c0 = None if cond is None else cond(item(probe_i))
-                ncg = len(eng.guard_frames[-1])
-                e0 = elt(item(probe_i))
-        finally:
-            guards = eng.guard_frames.pop()
-        if guards:
-            # the element expression can raise (index out of range): it does so iff some
-            # element violates its side condition (condition guards apply to every element,
-            # element guards only to the selected ones)
-            gs = []
-            for gi, (g, exc) in enumerate(guards):
-                if gi >= ncg and c0 is not None:
-                    g = z3.Implies(z3bool(c0), g)
-                gs.append(g)
-            allok = z3.ForAll([probe_i], z3.Implies(z3.And(probe_i >= 0, probe_i < n), z3.And(gs)))
+        if isinstance(it, SZip):
+            n = it.length().t
+        probe_i = eng.fresh("cmp_i", z3.IntSort(), bound=True)
+        gs = []
+        c0 = None
+        if cond is not None:
+            c0, cexc = eng.summarize(lambda: cond(item(probe_i)))
+            if c0 is None:
+                raise cexc[0][1]
+            c0 = SV(z3bool(c0)) if not isinstance(c0, bool) else c0
+            gs += [(z3.Not(pc), e) for pc, e in cexc]
+        e0, eexc = eng.summarize(lambda: elt(item(probe_i)))
+        if e0 is None:
+            raise eexc[0][1]
+        for pc, e in eexc:
+            g = z3.Not(pc)
+            if c0 is not None:
+                g = z3.Implies(z3bool(c0), g)
+            gs.append((g, e))
+        if gs:
+            # the comprehension raises iff some (selected) element takes a raising branch
+            allok = z3.ForAll([probe_i], z3.Implies(z3.And(probe_i >= 0, probe_i < n), z3.And([g for g, _ in gs])))
             if not eng.branch(allok):
-                raise guards[0][1]
+                raise gs[0][1]
         from .sym import _numkind
         if isinstance(e0, SOpt) or e0 is None:
             et = "optint"
@@ -449,7 +469,7 @@ class Runtime:
             self._pending[key] = iterable
             return True
         spec = self.loop_specs.get(key)
-        symbolic = isinstance(iterable, (SList, SRange, SEnum)) or hasattr(iterable, "vc_symbolic_iter")
+        symbolic = isinstance(iterable, (SList, SRange, SEnum, SZip)) or hasattr(iterable, "vc_symbolic_iter")
         if spec is None or (not symbolic and iterable is not None and spec.mode != "force"):
             if spec is None and hasattr(iterable, "vc_symbolic_iter") and _st.ENGINE is not None:
                 n = iterable.n
@@ -469,6 +489,9 @@ class Runtime:
                 b = b.to_slist()
             n = b.length().__index__()
             return [(k + it.start, b.at(z3.IntVal(k))) for k in range(n)]
+        if isinstance(it, SZip):
+            n = it.length().__index__()
+            return [it.at(z3.IntVal(k)) for k in range(n)]
         return it
 
     def while_tick(self, key):
@@ -632,6 +655,8 @@ class Runtime:
             if isinstance(b, SRange):
                 b = b.to_slist()
             return b.length().t, (lambda i: (SV(i + it.start), b.at(i)))
+        if isinstance(it, SZip):
+            return it.length().t, (lambda i: it.at(i))
         if hasattr(it, "vc_symbolic_iter"):
             return it.vc_symbolic_iter()
         if it is None:
@@ -846,6 +871,34 @@ def _real_types(cls):
     return _TYPE_BACK.get(cls, cls)
 
 
+def vc_zip(*parts):
+    if any(isinstance(p, (SList, SRange)) for p in parts):
+        return SZip(parts)
+    return zip(*parts)
+
+
+def vc_all(xs):
+    if isinstance(xs, SList):
+        if xs.etype != "bool":
+            raise Undecided("all() over a non-boolean symbolic list")
+        return forall_list(xs, lambda v: v)
+    return all(xs)
+
+
+def vc_any(xs):
+    if isinstance(xs, SList):
+        if xs.etype != "bool":
+            raise Undecided("any() over a non-boolean symbolic list")
+        return Not(forall_list(xs, lambda v: Not(v)))
+    return any(xs)
+
+
+def forall_list(xs, f):
+    eng = _st.ENGINE
+    j = eng.fresh("all_j", z3.IntSort(), bound=True)
+    return SV(z3.ForAll([j], z3.Implies(z3.And(j >= 0, j < xs.length().t), z3bool(f(xs.at(j))))))
+
+
 def vc_isinstance(x, cls):
     cls = _real_types(cls)
     import numbers
@@ -975,6 +1028,7 @@ _TYPE_BACK = {vc_int: int, vc_float: float, vc_complex: complex, vc_list: list, 
 VC_BUILTINS = {
     "len": vc_len, "range": vc_range, "list": vc_list, "tuple": vc_tuple, "enumerate": vc_enumerate,
     "isinstance": vc_isinstance, "int": vc_int, "float": vc_float, "complex": vc_complex,
+    "zip": vc_zip, "all": vc_all, "any": vc_any,
     "sum": vc_sum, "min": vc_min, "max": vc_max, "sorted": vc_sorted, "print": vc_print, "round": vc_round,
 }
 
